@@ -99,6 +99,8 @@ def run_property(prop, tier, seed, only=None):
         if params is None:
             continue
         timeout = h.timeout[0] if tier == 'quick' else h.timeout[1]
+        if os.environ.get('VERIF_TIME_SCALE'):
+            timeout = max(10, timeout * float(os.environ['VERIF_TIME_SCALE']))      # diagnostic runs only
         max_paths = h.max_paths[0] if tier == 'quick' else h.max_paths[1]
         res = explore(h.scenario, params, harness=h.name, seed=seed, timeout=timeout, max_paths=max_paths,
                       validate_every=h.validate_every, classify=h.classify)
